@@ -1,5 +1,5 @@
 #!/bin/sh
 # regenerate _CoqProject's file list and the Makefile
 cd "$(dirname "$0")"
-{ echo "-Q theories TC"; echo "-arg -w -arg -notation-overridden,-deprecated-hint-without-locality,-ambiguous-paths,-redundant-canonical-projection,-deprecated-instance-without-locality"; find theories -name '*.v' | sort; } > _CoqProject
+{ echo "-Q theories TC"; echo "-arg -w -arg -notation-overridden,-deprecated-hint-without-locality,-ambiguous-paths,-redundant-canonical-projection,-deprecated-instance-without-locality"; find theories -name '*.v' | grep -v -f exclude.txt | sort; } > _CoqProject
 coq_makefile -f _CoqProject -o Makefile >/dev/null
